@@ -234,3 +234,35 @@ func exportedOnly(dump string) string {
 	}
 	return strings.Join(toks, "~")
 }
+
+// spoilDump returns a copy of a tree dump in which one string member (chosen by n) got a leading blank, or one
+// numeric member became negative: a file that is NOT in canonical form ("" if the dump has no such member).
+func spoilDump(dump string, n int) string {
+	toks := strings.Split(dump, "~")
+	for k := 0; k < len(toks); k++ {
+		ti := (n*7 + k) % len(toks)
+		p := strings.SplitN(toks[ti], "|", 2)
+		if len(p) != 2 || p[1] == "^" {
+			continue
+		}
+		fs := strings.Split(p[1], ";")
+		for j := 0; j < len(fs); j++ {
+			fi := (n + j) % len(fs)
+			q := strings.SplitN(fs[fi], ":", 3)
+			if len(q) != 3 || len(q[0]) == 0 || q[0][0] < 'A' || q[0][0] > 'Z' {
+				continue
+			}
+			switch {
+			case q[1] == "S" && len(q[2]) > 0:
+				fs[fi] = q[0] + ":S:20" + q[2]
+			case q[1] == "I" && n%3 == 0:
+				fs[fi] = q[0] + ":I:-1"
+			default:
+				continue
+			}
+			toks[ti] = p[0] + "|" + strings.Join(fs, ";")
+			return strings.Join(toks, "~")
+		}
+	}
+	return ""
+}
